@@ -25,9 +25,9 @@ Section Dispatch.
   Proof. unfold error_run, create_violation_error. intros ->. reflexivity. Qed.
 
   (** a factory is called exactly once, with exactly the values it names; what it returns is raised *)
-  Lemma dispatch_factory eargs :
-    cerror c = EFactory eargs ->
-    match select eargs eargs resolved with
+  Lemma dispatch_factory eargs emand :
+    cerror c = EFactory eargs emand ->
+    match select eargs emand resolved with
     | None => error_run = ([], inr (XLib "TypeError" None), st)
     | Some kw =>
         kw = filter (fun kv => str_in (fst kv) eargs) resolved
@@ -40,19 +40,19 @@ Section Dispatch.
     end.
   Proof.
     unfold error_run, create_violation_error. intros ->.
-    destruct (select eargs eargs resolved) as [kw|] eqn:E; [|reflexivity].
+    destruct (select eargs emand resolved) as [kw|] eqn:E; [|reflexivity].
     split.
-    - unfold select in E. destruct (forallb (dict_has resolved) eargs); [|discriminate].
+    - unfold select in E. destruct (forallb (dict_has resolved) emand); [|discriminate].
       injection E as <-. reflexivity.
     - unfold bindM, emit. cbn. destruct (u_error U (cid c) kw); reflexivity.
   Qed.
 
   (** a factory naming a value the call does not provide is a TypeError, and it is not called *)
-  Lemma factory_missing eargs :
-    cerror c = EFactory eargs -> forallb (dict_has resolved) eargs = false ->
+  Lemma factory_missing eargs emand :
+    cerror c = EFactory eargs emand -> forallb (dict_has resolved) emand = false ->
     error_run = ([], inr (XLib "TypeError" None), st).
   Proof.
-    intros He Hm. pose proof (dispatch_factory eargs He) as H. unfold select in H. rewrite Hm in H. exact H.
+    intros He Hm. pose proof (dispatch_factory eargs emand He) as H. unfold select in H. rewrite Hm in H. exact H.
   Qed.
 End Dispatch.
 
